@@ -74,7 +74,12 @@ structure DSt where
   nontrivial : Nat := 0
   mismatches : Nat := 0
   specfails : Nat := 0
-  caseReported : Nat := 0      -- MISMATCH/SPECFAIL lines printed for the current case (capped)
+  silentFinNow : Int := 0      -- time of the last helper section that found its checkable gone from pending (no notify_all)
+  lastSchedNow : Int := 0      -- time of the last scheduler section
+  noWakeups : Nat := 0
+  noWakeupReported : Bool := false
+  caseReported : Nat := 0      -- MISMATCH lines printed for the current case (capped)
+  caseReportedSpec : Nat := 0  -- SPECFAIL lines printed for the current case (capped)
 
 def DSt.view (d : DSt) : St :=
   let cs := d.cs
@@ -94,17 +99,17 @@ def spec (d : DSt) (n : Nat) (c : Nat) (evs : List Ev) : IO DSt := do
   for e in evs do
     match specStep d.sp e with
     | some cl =>
-      if d.caseReported < 5 then
+      if d.caseReportedSpec < 5 then
         IO.println s!"SPECFAIL line={n} case={d.caseNo} clause={cl.name} cid={c}"
-      d := { d with specfails := d.specfails + 1, caseReported := d.caseReported + 1 }
+      d := { d with specfails := d.specfails + 1, caseReportedSpec := d.caseReportedSpec + 1 }
     | none => pure ()
     d := { d with sp := specNext d.sp e }
   return d
 
 def specName (d : DSt) (n : Nat) (c : Nat) (clause : String) : IO DSt := do
-  if d.caseReported < 5 then
+  if d.caseReportedSpec < 5 then
     IO.println s!"SPECFAIL line={n} case={d.caseNo} clause={clause} cid={c}"
-  return { d with specfails := d.specfails + 1, caseReported := d.caseReported + 1 }
+  return { d with specfails := d.specfails + 1, caseReportedSpec := d.caseReportedSpec + 1 }
 
 def setM (d : DSt) (c : Nat) (f : CSt → CSt) : DSt :=
   { d with cs := d.cs.modify c f }
@@ -240,6 +245,15 @@ def handleSched (d : DSt) (n : Nat) (kind : String) (c : Nat) (args obs : List S
       -- how long after it became due (or was re-keyed into the past) the entry was taken; includes waiting for a slot
       let lateness := now - (d.cs.getD c {}).dueFrom
       if !isPick then d := setM d c fun cs => { cs with dueFrom := max key now }
+      -- F-C04a (real-time liveness, measured): a helper finished for a checkable that had left the pending set, so
+      -- ExecuteCheckHelper:263-270 did not notify the scheduler, which slept on (up to 0.5 s, :121-126) although this
+      -- entry was due and a slot was free
+      if d.silentFinNow > d.lastSchedNow && now - d.silentFinNow ≥ 400000 && lateness ≥ 400000 then
+        d := { d with noWakeups := d.noWakeups + 1 }
+        if !d.noWakeupReported then
+          IO.println s!"SPECFAIL line={n} case={d.caseNo} clause=liveness_no_wakeup_after_silent_finish cid={c} late_us={lateness} since_finish_us={now - d.silentFinNow}"
+          d := { d with noWakeupReported := true, specfails := d.specfails + 1 }
+      d := { d with lastSchedNow := now }
       let modelSkips := Chk.skips (d.cs.getD c {}).m.forced true cst.enabled true
       if modelSkips == isPick then
         d ← mismatch d n "decision" c (if isPick then "dispatch" else "skip") (if modelSkips then "skip" else "dispatch")
@@ -293,7 +307,7 @@ def handleSched (d : DSt) (n : Nat) (kind : String) (c : Nat) (args obs : List S
         d := setM d c fun cs => { cs with m := { cs.m with hd := 1 } }
       if i && !cst.m.inIdle then
         d := setM d c fun cs => { cs with m := { cs.m with nextCheck := key } }
-      if !cst.m.inPending then d := { d with finDropped := d.finDropped + 1 }
+      if !cst.m.inPending then d := { d with finDropped := d.finDropped + 1, silentFinNow := now }
       let try1 := act d (.helperFinish c) c
       let ok (d' : DSt) : Bool := let x := (d'.cs.getD c {}).m; x.inIdle == i && x.inPending == p
       match try1 with
@@ -324,10 +338,10 @@ def handle (d : DSt) (n : Nat) (line : String) : IO DSt := do
   | [] => return d
   | "C" :: k :: "arith" :: _ =>
     let d := closeCase d
-    return { d with sched := false, caseNo := (parseNat? k).getD (d.caseNo + 1), cases := d.cases + 1, caseReported := 0 }
+    return { d with sched := false, caseNo := (parseNat? k).getD (d.caseNo + 1), cases := d.cases + 1, caseReported := 0, caseReportedSpec := 0 }
   | "C" :: k :: "sched" :: rest =>
     let d := closeCase d
-    let d := { d with caseNo := (parseNat? k).getD (d.caseNo + 1), cases := d.cases + 1, caseReported := 0,
+    let d := { d with caseNo := (parseNat? k).getD (d.caseNo + 1), cases := d.cases + 1, caseReported := 0, caseReportedSpec := 0,
                       caseBusy := 0, caseForced := 0, caseSkips := 0 }
     match (kvGet rest "max") >>= parseInt?, (kvGet rest "n") >>= parseNat?, (kvGet rest "pool") >>= parseNat?,
           (kvGet rest "bound_ms") >>= parseInt? with
@@ -382,7 +396,7 @@ def handle (d : DSt) (n : Nat) (line : String) : IO DSt := do
     let overdue := geti "overdue_max_us"
     let canary := geti "canary_max_us"
     if overdue > d.boundUs then
-      if canary < 500000 then d ← specName d n 0 "liveness_overdue"
+      if canary < 200000 then d ← specName d n 0 "liveness_overdue"
       else d := { d with livenessInconclusive := d.livenessInconclusive + 1 }
     return { d with overdueMaxUs := max d.overdueMaxUs overdue, canaryMaxUs := max d.canaryMaxUs canary,
                     maxParallel := max d.maxParallel (geti "max_parallel") }
@@ -417,4 +431,4 @@ def main : IO Unit := do
     s!"ops={d.ops} forces={d.forces} force_ambiguous={d.forceAmb} quiescent={d.quiescent} " ++
     s!"lat_lt1ms={d.lat1ms} lat_lt10ms={d.lat10ms} lat_lt100ms={d.lat100ms} lat_lt1s={d.lat1s} lat_ge1s={d.latMore} lat_max_us={d.latMaxUs} " ++
     s!"overdue_max_us={d.overdueMaxUs} canary_max_us={d.canaryMaxUs} max_parallel={d.maxParallel} " ++
-    s!"liveness_inconclusive={d.livenessInconclusive} nontrivial={d.nontrivial} mismatches={d.mismatches} specfails={d.specfails}")
+    s!"liveness_inconclusive={d.livenessInconclusive} no_wakeup_after_silent_finish={d.noWakeups} nontrivial={d.nontrivial} mismatches={d.mismatches} specfails={d.specfails}")
